@@ -6,6 +6,7 @@ from typing import (
     Container,
     Dict,
     Generic,
+    Iterator,
     List,
     Mapping,
     Optional,
@@ -36,6 +37,18 @@ A = TypeVar("A", covariant=True, bound="JSON")
 B = TypeVar("B", covariant=True)
 _Domain = Union[Container[A], Callable[[A], bool]]
 Domain = Evaluatable[_Domain]
+
+
+def _strings(value: Any) -> Iterator[str]:
+    # Every string inside a stored value: templated strings are resolved at any depth.
+    if isinstance(value, str):
+        yield value
+    elif isinstance(value, Mapping):
+        for item in value.values():
+            yield from _strings(item)
+    elif isinstance(value, list):
+        for item in value:
+            yield from _strings(item)
 
 
 class Option(Evaluatable[A]):
@@ -198,10 +211,9 @@ class Option(Evaluatable[A]):
         """
         if dotted_key_exists(self.key, options):
             value = get_dotted_key(self.key, options)
-            if isinstance(value, str):
-                return {self.key} | Template(value).keys(options)
-            else:
-                return {self.key}
+            return {self.key}.union(
+                *(Template(string).keys(options) for string in _strings(value))
+            )
         elif self.default is not MISSING:
             return self.default.keys(options)
         else:
@@ -212,10 +224,9 @@ class Option(Evaluatable[A]):
         options = options or {}
         if dotted_key_exists(self.key, options):
             value = get_dotted_key(self.key, options)
-            if isinstance(value, str):
-                return {self.key} | Template(value).explain(options)
-            else:
-                return {self.key}
+            return {self.key}.union(
+                *(Template(string).explain(options) for string in _strings(value))
+            )
         elif self.default is not MISSING:
             return self.default.explain(options)
         else:
